@@ -4,6 +4,7 @@ import (
 	"fmt"
 	"io"
 	"sort"
+	"sync"
 
 	"github.com/lugu/qiloop/bus"
 	"github.com/lugu/qiloop/bus/util"
@@ -12,6 +13,10 @@ import (
 
 // serviceDirectory implements ServiceDirectoryImplementor
 type serviceDirectory struct {
+	// mutex protects staging, services and lastID: the methods are
+	// called from the object's mailbox (remote requests) and directly
+	// by the local Namespace (Server.NewService, Service.Terminate).
+	mutex    sync.Mutex
 	staging  map[uint32]ServiceInfo
 	services map[uint32]ServiceInfo
 	lastID   uint32
@@ -58,6 +63,8 @@ func checkServiceInfo(i ServiceInfo) error {
 }
 
 func (s *serviceDirectory) info(serviceID uint32) (ServiceInfo, error) {
+	s.mutex.Lock()
+	defer s.mutex.Unlock()
 	info, ok := s.services[serviceID]
 	if !ok {
 		return info, fmt.Errorf("service %d not found", serviceID)
@@ -66,6 +73,8 @@ func (s *serviceDirectory) info(serviceID uint32) (ServiceInfo, error) {
 }
 
 func (s *serviceDirectory) Service(service string) (info ServiceInfo, err error) {
+	s.mutex.Lock()
+	defer s.mutex.Unlock()
 	for _, info = range s.services {
 		if info.Name == service {
 			return info, nil
@@ -81,6 +90,8 @@ func (a serviceList) Swap(i, j int)      { a[i], a[j] = a[j], a[i] }
 func (a serviceList) Less(i, j int) bool { return a[i].ServiceId < a[j].ServiceId }
 
 func (s *serviceDirectory) Services() ([]ServiceInfo, error) {
+	s.mutex.Lock()
+	defer s.mutex.Unlock()
 	list := make([]ServiceInfo, 0, len(s.services))
 	for _, info := range s.services {
 		list = append(list, info)
@@ -93,6 +104,8 @@ func (s *serviceDirectory) RegisterService(newInfo ServiceInfo) (uint32, error) 
 	if err := checkServiceInfo(newInfo); err != nil {
 		return 0, err
 	}
+	s.mutex.Lock()
+	defer s.mutex.Unlock()
 	for _, info := range s.staging {
 		if info.Name == newInfo.Name {
 			return 0, fmt.Errorf("Service name already staging: %s", info.Name)
@@ -110,6 +123,8 @@ func (s *serviceDirectory) RegisterService(newInfo ServiceInfo) (uint32, error) 
 }
 
 func (s *serviceDirectory) UnregisterService(id uint32) error {
+	s.mutex.Lock()
+	defer s.mutex.Unlock()
 	i, ok := s.services[id]
 	if ok {
 		delete(s.services, id)
@@ -128,6 +143,8 @@ func (s *serviceDirectory) UnregisterService(id uint32) error {
 }
 
 func (s *serviceDirectory) ServiceReady(id uint32) error {
+	s.mutex.Lock()
+	defer s.mutex.Unlock()
 	i, ok := s.staging[id]
 	if ok {
 		delete(s.staging, id)
@@ -145,6 +162,8 @@ func (s *serviceDirectory) UpdateServiceInfo(i ServiceInfo) error {
 	if err := checkServiceInfo(i); err != nil {
 		return err
 	}
+	s.mutex.Lock()
+	defer s.mutex.Unlock()
 
 	info, ok := s.services[i.ServiceId]
 	if !ok {
